@@ -3,6 +3,7 @@ import PqModel.Aad
 import PqModel.EncWalk
 import PqModel.EncConfig
 import PqModel.AadReader
+import PqModel.AadFile
 
 namespace Driver.Ops.C18
 open Driver PqModel.Aad
@@ -89,6 +90,41 @@ def handlePrun (rg col hasDict indexed rows enc : String) (ops : List String) : 
     s!"ok {showList presText out.2} {showList (fun (e : Ev) => slotText e.slot) out.1.r.log} {if good then 1 else 0}"
   | _, _, _, _, _, _, _ => "bad-op"
 
+/-- a chunk of a file description: four characters 0/1 = sealed column metadata, column index,
+    offset index, bloom filter present -/
+def parseFChunk? (s : String) : Option FChunk :=
+  match s.toList with
+  | [a, b, c, d] =>
+    if [a, b, c, d].all (fun x => x == '0' || x == '1') then
+      some { sealedMeta := a == '1', hasCI := b == '1', hasOI := c == '1', hasBloom := d == '1' }
+    else none
+  | _ => none
+
+def parseFOp? (s : String) : Option FOp :=
+  match s.splitOn ":" with
+  | ["o", skip] => (parseNat? skip).map (fun n => .openFile (n != 0))
+  | ["ci", rg, col] => match parseNat? rg, parseNat? col with
+    | some rg, some col => some (.columnIndex rg col)
+    | _, _ => none
+  | ["oi", rg, col] => match parseNat? rg, parseNat? col with
+    | some rg, some col => some (.offsetIndex rg col)
+    | _, _ => none
+  | ["bf", rg, col] => match parseNat? rg, parseNat? col with
+    | some rg, some col => some (.bloom rg col)
+    | _, _ => none
+  | _ => none
+
+/-- `aad.frun <row groups separated by /, chunks by ,> <call> ...` (calls: `o:<skip page index 0/1>`
+    OpenFile, `ci:<rg>:<col>` ColumnIndex(), `oi:…` OffsetIndex(), `bf:…` BloomFilter()) ->
+    `ok <modules opened so far, per call> <slot opened, in order> <all opened with the slot's arguments 0/1>` -/
+def handleFrun (file : String) (ops : List String) : String :=
+  match (file.splitOn "/").mapM (fun rg => (rg.splitOn ",").mapM parseFChunk?), ops.mapM parseFOp? with
+  | some f, some ops =>
+    let out := frun f ops
+    let good := out.1.log.all (fun e => e.used == e.slot.used)
+    s!"ok {showList toString out.2} {showList (fun (e : Ev) => slotText e.slot) out.1.log} {if good then 1 else 0}"
+  | _, _ => "bad-op"
+
 /-- one token of an option structure: `E<id>` / `E-` = `WithEncryption(cfg)` / `WithEncryption(nil)`,
     `S<id>` / `S-` = a configuration struct with / without the field, `O` = any other option,
     `[` … `]` = `NewWriterConfig(…)` whose result is passed on as one struct option -/
@@ -126,6 +162,7 @@ def handleCfg (toks : List String) : String :=
 def handle (toks : List String) : Option String :=
   match toks with
   | "enc.config" :: cfg => some (handleCfg cfg)
+  | "aad.frun" :: file :: ops => some (handleFrun file ops)
   | "aad.prun" :: rg :: col :: hasDict :: indexed :: rows :: enc :: ops => some (handlePrun rg col hasDict indexed rows enc ops)
   | "aad.wrun" :: ncols :: dict :: bloom :: reread :: plain :: ops => some <|
     match parseNat? ncols, parseCols? dict, parseCols? bloom, parseCols? reread, parseNat? plain, ops.mapM parseWOp? with
